@@ -4,7 +4,8 @@
    of objects and FIFOs.  The ring-layer model SV.SRMring (circular buffers, live counts, shutdown) is
    what tools/checks/c23.py runs in lockstep with the real code.  Statements only. *)
 From Coq Require Import List Arith Permutation.
-From SV Require SRM SRMorder Proofs_C23 SRMring RingRefine.
+From SV Require SRM SRMorder Proofs_C23 SRMring RingRefine GuardFlow.
+From SVG Require GuardGen.
 Import ListNotations.
 
 (* never lost, never duplicated: what has been popped plus what is still queued is a permutation of
@@ -44,3 +45,15 @@ Theorem srm_ring_no_lost_wakeup : forall nobj nproc ops dq ps, 0 < nobj -> 0 < n
   SRMring.ring_empty (SRMring.oq (fst (RingRefine.rrun (SRMring.mq_new nobj nproc) ops))) = true \/
   SRMring.ring_empty (SRMring.pq (fst (RingRefine.rrun (SRMring.mq_new nobj nproc) ops))) = true.
 Proof. exact RingRefine.ring_no_lost_wakeup. Qed.
+
+(* atomicity of the steps: in every function of EbSystemResourceManager.c that takes a mutex (skeletons regenerated from the
+   source, SVG.GuardGen), every queue operation and every write of a reference count / release flag / quit flag happens, on
+   every path, while a mutex is held, and the function returns holding none; the three helpers that rely on their caller's
+   critical section are analysed as entered with it and every call to them counts as such an access *)
+Theorem srm_steps_are_critical_sections :
+  forallb (fun f => GuardFlow.fn_ok (snd f)) SVG.GuardGen.guard_functions = true.
+Proof. vm_compute. reflexivity. Qed.
+
+Theorem srm_guard_meaning : forall body o, GuardFlow.fn_ok body = true -> GuardFlow.exec body [] o ->
+  (o = GuardFlow.Normal [] \/ o = GuardFlow.Returned []) /\ o <> GuardFlow.Fault.
+Proof. intros body o H He. split; [exact (GuardFlow.fn_ok_sound body o H He) | exact (GuardFlow.touch_guarded body H o He)]. Qed.
